@@ -343,7 +343,7 @@ func main() {
 		workerMain()
 		return
 	}
-	r := vk.Start("C11", "model_checking")
+	r := vk.Start("C11", "exploration")
 	reg := loadRegistry()
 	roots := buildRoots(reg)
 	if *listFlag {
